@@ -45,6 +45,8 @@ def main(argv=None):
             import warnings
             warnings.simplefilter('ignore')
             common.set_warnings(True)
+        if isinstance(case, dict) and case.pop('_ambient_faults', False):
+            common.provoke_faults()       # (met right after failed operations in the same thread: replayed after them)
         try:
             mod.replay(case)
         except common.Violation as v:
